@@ -204,6 +204,7 @@ func (c *c15conn) Read(p []byte) (int, error) {
 func (c *c15conn) Write(p []byte) (int, error) { c.out = append(c.out, p...); return len(p), nil }
 func (c *c15conn) Close() error                { return nil }
 func (c *c15conn) LocalAddr() net.Addr         { return &net.TCPAddr{IP: net.IPv4(10, 9, 0, 1), Port: 80} }
+
 func (c *c15conn) RemoteAddr() net.Addr        { return &net.TCPAddr{IP: net.IPv4(10, 9, 0, 2), Port: 40000} }
 func (c *c15conn) SetDeadline(t time.Time) error { return nil }
 
@@ -563,7 +564,17 @@ func (e *c15env) handshake(res *c15result, slot int) {
 		o.grade, o.chacha, o.dyn = rule.Grade, rule.Chacha20, rule.DynamicRecord
 		if np, ok := rule.NextProtos.(*NextProtosConf); ok && np != nil {
 			o.nprotos = len(np.protos)
-			o.selected = np.Get(tc)
+			// NextProtosConf.Get minus getHashValue: the murmur3 library it hashes the client
+			// address with does uintptr->pointer conversions that the checkptr instrumentation
+			// implied by -race aborts on (artefact of the race build); the synchronised part of
+			// Get is StatusNextProto, the rest is reproduced with hash value 0.
+			h2on, spdyon := np.serverRule.StatusNextProto()
+			for i, proto := range np.protos {
+				if np.level[i] == 0 && ((!h2on && strings.HasPrefix(proto, "h2")) || (!spdyon && strings.HasPrefix(proto, "spdy"))) {
+					continue
+				}
+				o.selected = append(o.selected, proto)
+			}
 		}
 		o.h2mcs = srv.TLSServerRule.GetHTTP2Rule(tc).MaxConcurrentStreams
 	}
@@ -943,6 +954,7 @@ func (s *c15stderr) newRaces() []string {
 type c15pass struct {
 	bound int
 	scns  []c15scn
+	whole bool // deal out whole scenarios to the shards (small passes) instead of subtrees
 }
 
 func c15passes(thorough bool) []c15pass {
@@ -981,9 +993,9 @@ func c15passes(thorough bool) []c15pass {
 		{name: "R+S+G+W/b1", threads: "RSGW", paths: []string{"/rw"}, bal: 1},
 	}
 	if !thorough {
-		return []c15pass{{2, two}, {1, three}, {1, four}}
+		return []c15pass{{2, two, true}, {1, three, true}, {1, four, true}}
 	}
-	return []c15pass{{3, two}, {2, three}, {2, four}}
+	return []c15pass{{3, two, false}, {2, three, false}, {2, four, false}}
 }
 
 func TestVerifC15(t *testing.T) {
@@ -1039,6 +1051,20 @@ func TestVerifC15(t *testing.T) {
 			}
 			if r.Replaying() {
 				vk.ExploreSharded(r, name, 0, -1, one, nil)
+				continue
+			}
+			if ps.whole {
+				unit++
+				if r.Mine(unit) {
+					vk.Explore(nil, nil, ps.bound, one, stop)
+					r.Nontrivial(name)
+					r.Traces(execs)
+					r.Set("sum_interleavings:"+name, float64(execs))
+					r.Set("max_distinct_observations_in_a_shard:"+name, float64(len(states)))
+				}
+				if stop() {
+					break
+				}
 				continue
 			}
 			// Partition the interleavings of the scenario by their first non-default scheduling
